@@ -132,6 +132,20 @@ func init() {
 			n = c.N(200, 6000)
 		}
 		runHistories(c, n, "general", generalCfg)
+		// collections shared by several connections, modified while some of
+		// the subscribers still wait for referenced resources to load: every
+		// subscriber's load-time snapshot must stay what it was when taken
+		runHistories(c, n/4, "sharedcoll", func(i int, r *Rng) HistCfg {
+			cfg := generalCfg(i, r)
+			cfg.Conns = 2 + r.Intn(3)
+			cfg.NRes = 3 + r.Intn(3)
+			cfg.PColl = 60 + r.Intn(30)
+			cfg.PRef = 30 + r.Intn(30)
+			cfg.PErr = 0
+			cfg.Mode = "burst"
+			cfg.W = map[string]int{"sub": 25, "unsub": 8, "get": 4, "add": 14, "remove": 22, "change": 6, "custom": 2, "answer": 8, "quiesce": 2}
+			return cfg
+		})
 	})
 	Register("C02", func(c *RunCtx) {
 		n := c.N(1600, 40000)
